@@ -276,7 +276,9 @@ theorem unpackRHeader_noPanic (msg : Bytes) (off : Nat) : NoPanic (unpackRHeader
         · rename_i ttl o4 _
           split
           · rename_i e he; exact (u16At_noPanic msg o4).of_error he
-          · exact noPanic_ok _
+          · split
+            · intro hf; cases hf
+            · exact noPanic_ok _
 
 theorem unpackResource_noPanic (msg : Bytes) (off : Nat) : NoPanic (unpackResource msg off) := by
   unfold unpackResource
